@@ -36,6 +36,25 @@ class Gen:
         self.r = r
         self.feat = feat            # dict of feature switches (steering around known findings)
         self.defined = set()        # names that may be defined at this point (over-approximation)
+        # Steering around the recorded macro-expansion findings F62/F63/F65 (see design-notes/C13.md):
+        #   mode "acyclic": a macro body mentions only macros of lower rank (random order per unit), so no
+        #                   macro is ever met while it is disabled; arguments may nest arbitrarily.
+        #   mode "selfref": object-like macros may refer to themselves and to each other in cycles, function-like
+        #                   macros only to themselves; arguments then contain no macro names.
+        self.mode = "acyclic" if r.random() < 0.65 else "selfref"
+        names = OBJ + list(FUN) + list(VAR)
+        r.shuffle(names)
+        self.rank = {n: i for i, n in enumerate(names)}
+
+    def lower(self, pool, self_name):
+        """macros a body of `self_name` may mention"""
+        if self_name is None:
+            return list(pool)
+        if self.mode == "acyclic":
+            return [n for n in pool if self.rank[n] < self.rank[self_name]]
+        if self_name in OBJ:
+            return [n for n in pool if n in OBJ]          # cycles among object-like macros
+        return []
 
     # ---- typed #if expressions: 'S' signed, 'U' unsigned, 'B' boolean(int) -------------------------
     def lit(self, t):
@@ -188,63 +207,70 @@ class Gen:
 
     def body_tokens(self, params, self_name, depth=0):
         """token soup for a text macro body: parameters, plain identifiers, other macros (possibly invoked),
-           the macro's own name (direct self reference)"""
+           the macro's own name (direct self reference, mode selfref only)"""
         r = self.r
         out = []
+        objs = self.lower(OBJ, self_name)
         for _ in range(r.choice([0, 1, 1, 2, 2, 3, 4])):
             k = r.random()
             if params and k < 0.35:
                 out.append(r.choice(params))
             elif k < 0.5:
                 out.append(r.choice(PLAIN + PUNCT))
-            elif k < 0.62 and self.feat["self_ref"]:
+            elif k < 0.62 and self.mode == "selfref":
                 out.append(self_name)
                 if self_name in FUN and r.random() < 0.6:
-                    out += ["("] + self.args(FUN[self_name], params, depth + 1) + [")"]
-            elif k < 0.8:
-                out.append(r.choice(OBJ))
+                    out += ["("] + self.args(FUN[self_name], params, depth + 1, owner=self_name) + [")"]
+            elif k < 0.8 and objs:
+                out.append(r.choice(objs))
             else:
-                out += self.invocation(params, depth + 1)
+                out += self.invocation(params, depth + 1, owner=self_name)
+        # a body must not end in a bare function-like name other than through an invocation: fine by construction
         return out
 
-    def args(self, n, params, depth, variadic_extra=0):
-        r = self.r
+    def args(self, n, params, depth, variadic_extra=0, owner=None):
         out = []
         for i in range(n + variadic_extra):
             if i:
                 out.append(",")
-            out += self.arg(params, depth)
+            out += self.arg(params, depth, owner)
         return out
 
-    def arg(self, params, depth):
+    def arg(self, params, depth, owner=None):
         r = self.r
         out = []
+        plain_only = self.mode == "selfref"
+        objs = self.lower(OBJ, owner)
         for _ in range(r.choice([1, 1, 1, 2, 3])):
             k = r.random()
             if params and k < 0.3:
                 out.append(r.choice(params))
-            elif k < 0.6:
+            elif k < 0.6 or plain_only:
                 out.append(r.choice(PLAIN + ["1", "2", "+", "*"]))
-            elif k < 0.75:
-                out.append(r.choice(OBJ))
+            elif k < 0.75 and objs:
+                out.append(r.choice(objs))
             elif k < 0.85 and depth < 3:
-                out += self.invocation(params, depth + 1)
+                out += self.invocation(params, depth + 1, owner)
             elif k < 0.92:
-                out += ["("] + self.arg(params, depth + 1) + [",", r.choice(PLAIN)] + [")"]   # protected comma
+                out += ["("] + self.arg(params, depth + 1, owner) + [",", r.choice(PLAIN)] + [")"]   # protected comma
             else:
-                out.append(r.choice(list(FUN)))            # bare function-like name as an argument
+                fl = self.lower(list(FUN), owner)
+                out.append(r.choice(fl) if fl else "x")     # bare function-like name as an argument
+                out.append(r.choice(PLAIN))                 # ... never directly before a macro name (F65)
         return out
 
-    def invocation(self, params, depth):
+    def invocation(self, params, depth, owner=None):
         r = self.r
-        if depth > 3:
+        funs = self.lower(list(FUN), owner)
+        vars_ = self.lower(list(VAR), owner) if self.feat["variadic"] else []
+        if depth > 3 or not (funs or vars_):
             return [r.choice(PLAIN)]
-        if r.random() < 0.3 and self.feat["variadic"]:
-            n = r.choice(list(VAR))
+        if vars_ and (not funs or r.random() < 0.3):
+            n = r.choice(vars_)
             extra = r.choice([1, 1, 2, 3])
-            return [n, "("] + self.args(VAR[n], params, depth, extra) + [")"]
-        n = r.choice(list(FUN))
-        return [n, "("] + self.args(FUN[n], params, depth) + [")"]
+            return [n, "("] + self.args(VAR[n], params, depth, extra, owner) + [")"]
+        n = r.choice(funs)
+        return [n, "("] + self.args(FUN[n], params, depth, owner=owner) + [")"]
 
     def text_macro_def(self):
         r = self.r
@@ -515,7 +541,7 @@ def main(argv):
         hs = [read_replay(ck.replay)]
         known = []
     else:
-        n = 700 if ck.tier == "quick" else 30000
+        n = int(os.environ.get("VERIF_C13_UNITS", "0")) or (700 if ck.tier == "quick" else 30000)
         hs = list(CORPUS)
         rejected = 0
         rounds = 0
